@@ -9,6 +9,14 @@
 //	m <msg> ... runmod    the same through marbl.Modifier (ids = Context.ID() of real contexts)
 //	m <msg> ... runws     the same, the stream's writer being the real marbl.Handler with one real
 //	                      websocket subscriber (ws.go); the subscriber must receive the written frames
+//	m <msg> ... rung <n>  the same under a controlled schedule (sched.go): the writer goroutine parks inside
+//	                      every Write, messages start and body reads return one gate at a time, chosen by
+//	                      a splitmix stream seeded with n
+//
+// What the model receives for a run op is the op plus two things the run decided (core.Result.ModelOp):
+// ord=<i,i,…> the message each Write of the stream's writer belonged to, in order (the schedule of the
+// writer goroutine: the model's explicit writer replays it and must produce the same byte stream), and
+// ts=<ms,…> the :timestamp value of each message, ho=<names>/… the iteration order of each message's header map.
 //	  msg = kind/id/api/pseudo,.../host/cl/te/hdrs/reads
 //	    kind   q (request) | s (response)
 //	    id     hex, >= 8 bytes (the frames carry id[:8])
@@ -53,11 +61,13 @@ func init() { core.Register(P{}) }
 func (P) ID() string { return "C19" }
 func (P) Rule() string {
 	return "case = either one logging run (`m` op per message, then `run`): 1..8 messages (requests/responses, request+response pairs sharing an id, random pseudo-header " +
-		"fields, header maps with repeated/empty/binary/long values, bodies 0..MiB delivered by a scripted body in random chunkings with " +
+		"fields, header maps with repeated/empty/binary/long (> 64 KiB) values, bodies 0..MiB delivered by a scripted body in random chunkings (one Read returns 1 byte .. 1 MiB) with " +
 		"EOF-with-data / separate EOF / early stop / mid-body error / reads after EOF, consumer buffers of random slack) logged concurrently " +
 		"to one real marbl.Stream (writer: a recorder that also retains the slices it is handed; via marbl.Modifier in 1/5, into the real marbl.Handler " +
-		"with a real websocket subscriber in 2/5 of the cases) and parsed back with marbl.Reader and an independent parser; or a batch of `read` ops: streams of valid " +
-		"frames that are truncated, bit-flipped, re-typed, given boundary/huge length fields, spliced with random bytes, or purely random; " +
+		"with a real websocket subscriber in 2/5 of the cases; or, `rung`, 2..6 messages under a controlled schedule: the writer goroutine is held inside every Write, " +
+		"message starts and body reads are released one gate at a time by a seeded scheduler that waits for all goroutines to block) and parsed back with marbl.Reader and an independent parser, " +
+		"the model replaying the observed order of writes; or a batch of `read` ops: streams of valid " +
+		"frames (1/30 with a header or data frame around/above 64 KiB) that are truncated, bit-flipped, re-typed, given boundary/huge length fields, spliced with random bytes, or purely random; " +
 		"distinct by hash of the op list; non-trivial when a log case has >= 2 messages and >= 2 data frames, or a read batch reaches " +
 		">= 2 different terminating outcomes or parses >= 1 frame before an error"
 }
@@ -474,9 +484,13 @@ type scriptBody struct {
 	steps  []readStep
 	i      int
 	closed bool
+	gate   func() // controlled schedules: called at the start of every Read
 }
 
 func (s *scriptBody) Read(b []byte) (int, error) {
+	if s.gate != nil {
+		s.gate()
+	}
 	if s.i >= len(s.steps) {
 		return 0, io.EOF
 	}
@@ -517,7 +531,7 @@ func joinOr(sep string, l []string) string {
 
 // doLog logs the messages concurrently, directly through Stream.LogRequest/LogResponse with the
 // op's ids, or (viaMod) through marbl.Modifier with the ids of real martian contexts.
-func doLog(toks []string, mode string) core.Result {
+func doLog(toks []string, mode string, seed uint64, opText string) core.Result {
 	viaMod := mode == "runmod"
 	tapOK := func() {}
 	var ms []*msg
@@ -532,6 +546,12 @@ func doLog(toks []string, mode string) core.Result {
 		return core.Result{Impl: "bad-op"}
 	}
 	rec := &recWriter{}
+	var g *gated
+	if mode == "rung" {
+		g = newGated(seed, len(ms))
+		rec.gate = g.waitWrite
+		core.Count("log:controlled-schedule")
+	}
 	var tap *wsTap
 	if mode == "runws" {
 		nf := 0
@@ -568,11 +588,16 @@ func doLog(toks []string, mode string) core.Result {
 
 	t0 := time.Now().UnixNano() / 1e6
 	for i, m := range ms {
+		i, m := i, m
 		// build the message
 		u := &url.URL{Scheme: "", Host: ""}
 		req := &http.Request{Method: "GET", URL: u, Proto: "HTTP/1.1", Header: http.Header{}}
 		var res *http.Response
-		var body io.ReadCloser = &scriptBody{steps: m.reads}
+		sb := &scriptBody{steps: m.reads}
+		if g != nil {
+			sb.gate = func() { g.waitRead(i) }
+		}
+		var body io.ReadCloser = sb
 		if m.noBody {
 			body = http.NoBody
 			core.Count("body:http.NoBody")
@@ -638,52 +663,25 @@ func doLog(toks []string, mode string) core.Result {
 			wireID[i] = ctx.ID()[:8]
 		}
 		wg.Add(1)
-		go func(i int, m *msg) {
-			defer wg.Done()
-			defer func() {
-				if x := recover(); x != nil {
-					panMu.Lock()
-					if panicked == "" {
-						panicked = fmt.Sprintf("message %d: %v", i, x)
-					}
-					panMu.Unlock()
+		go logWorker(&workerEnv{i: i, m: m, req: req, res: res, s: s, mod: mod, g: g, start: start, wg: &wg,
+			gots: &gots[i], onPanic: func(x interface{}) {
+				panMu.Lock()
+				if panicked == "" {
+					panicked = fmt.Sprintf("message %d: %v", i, x)
 				}
-			}()
-			<-start
-			var wrapped io.ReadCloser
-			if m.kind == 'q' {
-				if viaMod {
-					mod.ModifyRequest(req)
-				} else {
-					s.LogRequest(m.id, req)
-				}
-				wrapped = req.Body
-			} else {
-				if viaMod {
-					mod.ModifyResponse(res)
-				} else {
-					s.LogResponse(m.id, res)
-				}
-				wrapped = res.Body
-			}
-			for k, st := range m.reads {
-				buf := make([]byte, len(st.data)+st.extra)
-				n, err := wrapped.Read(buf)
-				g := got{n: n, err: err}
-				if n >= 0 && n <= len(buf) {
-					g.data = append([]byte(nil), buf[:n]...)
-				}
-				gots[i] = append(gots[i], g)
-				if k%3 == 1 {
-					runtime.Gosched()
-				}
-			}
-			wrapped.Close()
-		}(i, m)
+				panMu.Unlock()
+			}})
 	}
 	close(start)
 	done := make(chan struct{})
 	go func() { wg.Wait(); close(done) }()
+	if g != nil {
+		ok := g.drive(20 * time.Second)
+		g.release() // from here on no gate holds anybody (a writer that still has frames to write must not park for ever)
+		if !ok {
+			return core.Result{Impl: "hang", Fail: "controlled schedule: logging goroutines and the stream's writer did not come to rest within 20s", Sig: "log-hang"}
+		}
+	}
 	select {
 	case <-done:
 	case <-time.After(20 * time.Second):
@@ -940,8 +938,128 @@ func doLog(toks []string, mode string) core.Result {
 		}
 	}
 	out = append(out, "end="+end, fmt.Sprintf("frames=%d", len(fs)))
+
+	// ---- the writer goroutine's schedule, as observed: which message each Write belonged to. The
+	// model's explicit writer (Marbl.Sys) replays it and must arrive at the same byte stream, write for write.
+	var ord []string
+	var canon []byte
+	writes := 0
+	for _, c := range chunks {
+		if viaMod && sentinel != "" && len(c) >= 10 && string(c[2:10]) == sentinel {
+			continue
+		}
+		writes++
+		o := "x" // not the start of a frame of a logged message
+		at := len(canon)
+		canon = append(canon, c...)
+		if len(c) >= 10 && (c[0] == 1 || c[0] == 2) {
+			if i, ok := owner[key{string(c[2:10]), c[1]}]; ok {
+				o = strconv.Itoa(i)
+				copy(canon[at+2:at+10], ms[i].id[:8]) // runmod: the op's id in place of the context's
+			}
+		}
+		ord = append(ord, o)
+	}
+	tss := make([]string, len(ms))
+	for i := range ms {
+		tss[i] = "-"
+		for _, j := range perMsg[i] {
+			if fs[j].hdr && fs[j].name == ":timestamp" {
+				tss[i] = core.HexS(fs[j].value)
+				break
+			}
+		}
+	}
+	// the iteration order of each message's header map (a Go map: any order), read off its frames:
+	// the names in order of their last occurrence (the map part follows the pseudo-headers)
+	hos := make([]string, len(ms))
+	for i := range ms {
+		last := map[string]int{}
+		for _, j := range perMsg[i] {
+			if fs[j].hdr {
+				last[fs[j].name] = j
+			}
+		}
+		names := make([]string, 0, len(last))
+		for n := range last {
+			names = append(names, n)
+		}
+		sort.Slice(names, func(a, b int) bool { return last[names[a]] < last[names[b]] })
+		for k := range names {
+			names[k] = core.HexS(names[k])
+		}
+		hos[i] = "_"
+		if len(names) > 0 {
+			hos[i] = strings.Join(names, ",")
+		}
+	}
+	out = append(out, fmt.Sprintf("writes=%d", writes), fmt.Sprintf("stream=%d:%s", len(canon), fnv(canon)))
+	res.ModelOp = strings.TrimSpace(opText + " ord=" + joinOr(",", ord) + " ts=" + strings.Join(tss, ",") + " ho=" + strings.Join(hos, "/"))
 	res.Impl = strings.Join(out, " ")
 	return res
+}
+
+// workerEnv is what one logging goroutine needs.
+type workerEnv struct {
+	i       int
+	m       *msg
+	req     *http.Request
+	res     *http.Response
+	s       *marbl.Stream
+	mod     *marbl.Modifier
+	g       *gated
+	start   chan struct{}
+	wg      *sync.WaitGroup
+	gots    *[]got
+	onPanic func(interface{})
+}
+
+// logWorker logs one message and then reads its body as scripted. (Named: the controlled scheduler
+// finds these goroutines in the goroutine dump by this function's name.)
+func logWorker(e *workerEnv) {
+	defer e.wg.Done()
+	if e.g != nil {
+		defer e.g.finished(e.i)
+	}
+	defer func() {
+		if x := recover(); x != nil {
+			e.onPanic(x)
+		}
+	}()
+	<-e.start
+	if e.g != nil {
+		e.g.waitStart(e.i)
+	}
+	m := e.m
+	var wrapped io.ReadCloser
+	if m.kind == 'q' {
+		if e.mod != nil {
+			e.mod.ModifyRequest(e.req)
+		} else {
+			e.s.LogRequest(m.id, e.req)
+		}
+		wrapped = e.req.Body
+	} else {
+		if e.mod != nil {
+			e.mod.ModifyResponse(e.res)
+		} else {
+			e.s.LogResponse(m.id, e.res)
+		}
+		wrapped = e.res.Body
+	}
+	for k, st := range m.reads {
+		buf := make([]byte, len(st.data)+st.extra)
+		n, err := wrapped.Read(buf)
+		g := got{n: n, err: err}
+		if n >= 0 && n <= len(buf) {
+			g.data = append([]byte(nil), buf[:n]...)
+		}
+		*e.gots = append(*e.gots, g)
+		if k%3 == 1 && e.g == nil {
+			runtime.Gosched()
+		}
+	}
+	wrapped.Close()
 }
 
 type ex struct{ queue []string }
@@ -955,7 +1073,7 @@ func (e *ex) Do(op string) core.Result {
 	case len(t) == 2 && t[0] == "read":
 		return doRead(t[1])
 	case len(t) >= 2 && t[0] == "log":
-		return doLog(t[1:], "run")
+		return doLog(t[1:], "run", 0, op)
 	case len(t) == 2 && t[0] == "m": // one message of the next `run`
 		e.queue = append(e.queue, t[1])
 		return core.Result{Impl: "queued"}
@@ -965,7 +1083,15 @@ func (e *ex) Do(op string) core.Result {
 		if len(q) == 0 {
 			return core.Result{Impl: "bad-op"}
 		}
-		return doLog(q, t[0])
+		return doLog(q, t[0], 0, op)
+	case len(t) == 2 && t[0] == "rung": // controlled schedule (sched.go)
+		seed, err := strconv.ParseUint(t[1], 10, 64)
+		q := e.queue
+		e.queue = nil
+		if err != nil || len(q) == 0 {
+			return core.Result{Impl: "bad-op"}
+		}
+		return doLog(q, "rung", seed, op)
 	}
 	return core.Result{Impl: "bad-op"}
 }
